@@ -46,3 +46,26 @@ Theorem C03_stale_served_immediately_in_background_mode : forall v fh uttl ttl x
   oc_val o = Some x /\ oc_built o = true /\ oc_before o = false.
 Proof. intros. destruct built; repeat split; reflexivity. Qed.
 Print Assumptions C03_stale_served_immediately_in_background_mode.
+
+(* ---- tie to the source: the function bodies below are re-translated from /repo on every run
+   (harness/cmd/gofunc -> theories/Generated/Funcs.v, interpreted by theories/GoIR.v) ---- *)
+From Coq Require Import String.
+From Cache Require Import GoIR TieFailover.
+From Cache.Generated Require Import Funcs.
+Open Scope string_scope.
+Open Scope Z_scope.
+
+(* the sync/background decision and the staleness test of the source are the model's (steps PCtxSync, PClassify) *)
+Theorem C03_source_ctx_sync : forall sync_update has_err,
+  run_ctx_sync fn_Failover_ctxSync sync_update has_err = Some (sync_update || has_err, negb (sync_update || has_err)) /\
+  run_ctx_sync fn_FailoverOf_ctxSync sync_update has_err = Some (sync_update || has_err, negb (sync_update || has_err)).
+Proof. exact tie_ctx_sync. Qed.
+Print Assumptions C03_source_ctx_sync.
+
+Theorem C03_source_staleness_test : forall is_expired max_stale v now at_,
+  run_fresh_enough_of is_expired max_stale v now at_ =
+    Some (if is_expired && fresh_enough_impl max_stale now at_ then (v, true) else (0, false)) /\
+  run_value_from_error true true max_stale v now at_ =
+    Some (if fresh_enough_impl max_stale now at_ then (Some v, true) else (None, false)).
+Proof. intros; split; [exact (tie_fresh_enough_of _ _ _ _ _)|exact (tie_value_from_error _ _ _ _)]. Qed.
+Print Assumptions C03_source_staleness_test.
